@@ -654,6 +654,12 @@ def _run(ctx, exe, mexe, rng):
                             errs.append("state %d: mirror outcome %s" % (s, r))
                             continue
                         got_x = sorted(tuple(map(int, x.split(":"))) for x in parts[3].split())
+                        # the mirror row is the state after the edge loop; since fix 92211be the second
+                        # loop of StateTable::new clears the state_actions bit of a cell that %nonassoc
+                        # turned into an error, so compare the bits masked by "cell is not Error"
+                        mcells = parts[0].split()
+                        if len(mcells) == len(parts[2]):
+                            parts[2] = "".join(b if c != "E" else "0" for b, c in zip(parts[2], mcells))
                         if parts[0] != want_cells or parts[1] != want_gotos or parts[2] != want_sa or got_x != want_x:
                             errs.append("state %d: mirror row [%s] vs implementation [%s / %s / %s / %s]" % (s, r, want_cells, want_gotos, want_sa, want_x))
                     if "fixed_allsame=1" not in out or len(set(fixed)) != 1:
